@@ -145,3 +145,51 @@ def proj_equal(a, b, tol=1e-8):
         return False
     a, b = a / na, b / nb
     return bool(min(np.linalg.norm(a - b), np.linalg.norm(a + b)) <= tol)
+
+
+# ---------------------------------------------------------------- number packagings of real parameters
+INT_PACKS = ["int", "np.int64", "np.int32", "0d-int", "float", "np.float64", "np.float32", "0d-float"]
+FLOAT_PACKS = ["float", "np.float64", "0d-float"]
+
+
+def pack(v, kind):
+    """the same real number in a given packaging (integer packagings only for integral values)"""
+    if kind == "int":
+        return int(v)
+    if kind == "np.int64":
+        return np.int64(v)
+    if kind == "np.int32":
+        return np.int32(v)
+    if kind == "0d-int":
+        return np.array(int(v))
+    if kind == "np.float64":
+        return np.float64(v)
+    if kind == "np.float32":
+        return np.float32(v)
+    if kind == "0d-float":
+        return np.array(float(v))
+    return float(v)
+
+
+def rand_real(rng, lo, hi, p_int=0.4, ints=None):
+    """a real parameter as {"v": value, "pack": packaging}: with probability p_int an integral value in [lo, hi]
+    in a random packaging (Python int, NumPy integer scalars, 0-d integer array, or the same value as a float)"""
+    cands = ints if ints is not None else [k for k in range(int(math.ceil(lo)), int(math.floor(hi)) + 1) if k != 0]
+    if cands and rng.random() < p_int:
+        return {"v": rng.choice(cands), "pack": rng.choice(INT_PACKS)}
+    return {"v": rng.uniform(lo, hi), "pack": rng.choice(FLOAT_PACKS)}
+
+
+def unpack(d):
+    """packaged value; plain numbers (older corpus entries) are taken as floats"""
+    if not isinstance(d, dict):
+        return float(d)
+    return pack(d["v"], d["pack"])
+
+
+def val(d):
+    return float(d["v"]) if isinstance(d, dict) else float(d)
+
+
+def is32(d):
+    return isinstance(d, dict) and d["pack"] == "np.float32"
